@@ -19,6 +19,12 @@ def watch_campaign(ck):
              ({'w0': {'kind': 'build', 'own_input': True, 'producers': [], 'deps': []},
                'w1': {'kind': 'build', 'own_input': False, 'producers': ['w0'], 'deps': []}}, ['w1'], False,
               [('change', 'w0'), ('idle',)]),
+             # two dependencies of one target change close together: the dependent must be re-run after BOTH finished
+             ({'w0': {'kind': 'build', 'own_input': True, 'producers': [], 'deps': []},
+               'w1': {'kind': 'build', 'own_input': True, 'producers': [], 'deps': []},
+               'w2': {'kind': 'build', 'own_input': False, 'producers': [], 'deps': ['w0', 'w1']},
+               'svc': {'kind': 'service', 'own_input': False, 'producers': [], 'deps': ['w0', 'w1']}}, ['w2', 'svc'], True,
+              [('change', 'w0'), ('change', 'w1'), ('idle',)]),
              # a failing version, then the repair (the watcher must still be there and the repair must be built)
              ({'w0': {'kind': 'build', 'own_input': True, 'producers': [], 'deps': []}}, ['w0'], False,
               [('break', 'w0'), ('idle',), ('change', 'w0'), ('idle',)])]
